@@ -85,7 +85,7 @@ CHECKS = {
  "C16": ("model_checking",
          "stateless deviation-bounded exhaustive exploration of the opening handshake on the real I/O loop against every scripted server behaviour per stage, plus a complete cartesian sweep of StartOk construction",
          "simx: at each of the three points where the client waits the broker either behaves or sends one of 12 other things (Secure, Close, wrong-stage frames, heartbeat, channel-1 method, header, body, EOF, malformed bytes, silence with a configured timeout), plus mechanism/locale lists, too small frame_max, auth/information options and transport faults injected at any point; every delivery cut/schedule with at most 2 (thorough 3) deviations. Oracle: the exact error or success, methods written strictly in reaction (StartOk content, TuneOk, Open vhost, CloseOk on a server close), server_properties, thread and transport released. seqx: 228k (mechanism list, locale list, auth, locale, information) combinations through make_start_ok with token-equality expectations.",
-         "Where the statement leaves the error open (malformed bytes / silence while waiting for the reply to StartOk) either reading is accepted. Silence without a configured timeout is outside the statement and not generated. Virtual time replaces the poll timeout (DESIGN.md 3.3).",
+         "InvalidCredentials is accepted only for an end of stream while waiting for the reply to StartOk; malformed bytes, a timeout and socket errors keep their own causes there (as the statement says). Silence without a configured timeout is outside the statement and not generated. Virtual time replaces the poll timeout (DESIGN.md 3.3).",
          "DESIGN.md §6 C16", "seqx+simx"),
  "C17": ("model_checking",
          "complete enumeration of timing patterns on a virtual-time grid over the real heartbeat code in a live connection (controlled scheduler, virtual clock, timer stand-in)",
@@ -95,16 +95,16 @@ CHECKS = {
  "C18": ("model_checking",
          "stateless deviation-bounded exhaustive exploration of publishers against a stalling transport on the real threads",
          "Two publisher threads and the connection thread (opening/closing a channel meanwhile) over a transport that stalls after a chosen number of bytes and is re-opened in grants; five tunings (bound, high, low) incl. bound 0 and high 0; every decision sequence with at most 1-2 (thorough 2-3) deviations. Oracle: buffered output at every poll gate within high + channels*(bound+1)*frame + 64, no deadlock (every blocked publisher resumes), every message on the wire exactly once in per-channel order.",
-         "Bounds: 3 channels, 3 publishes each; one I/O-loop iteration is atomic with respect to client sends (a publisher refilling its queue during a drain is not modelled).",
+         "Bounds: 3 channels, 3 publishes each; one I/O-loop iteration is atomic with respect to client sends except in the fine-mode variants (a publisher refilling its queue during a drain); variants closing the connection behind a buffered backlog over a trickling peer keep the high-water mark out of reach (DESIGN.md 9).",
          "DESIGN.md §6 C18", "simx"),
  "C19": ("exploration",
          "complete cartesian enumeration of URLs assembled from component alphabets through the real URL decoding, oracle = the components (never re-parsed)",
          "1.68 million URLs (thorough: more hosts and all ordered triples of valid parameters) assembled from scheme x userinfo x host x port x path x query alphabets; decoded host, port, credentials, vhost, heartbeat, channel_max, connection_timeout, auth mechanism or the specific error compared with the tuple the URL was built from; Connection::open on every accepted amqp:// shape must answer InsecureUrl.",
-         "Decoding is observed through a probe that runs the same three calls Connection::open runs before touching the network; a loopback slice (simx urlslice) opens nine URLs with the real Connection::insecure_open against the scripted broker behind a TCP listener and compares what the broker receives.",
+         "Decoding is observed through a probe that runs the same three calls Connection::open runs before touching the network; a loopback slice (simx urlslice) opens twelve URLs (IPv4 literal, name and bracketed IPv6 literal hosts) with the real Connection::insecure_open against the scripted broker behind a TCP listener and compares what the broker receives.",
          "DESIGN.md §6 C19", "seqx+simx"),
  "C20": ("model_checking",
          "complete enumeration of ordered event subsets made pending in one poll batch of the real I/O thread (batch driver on the controlled scheduler), with a differential oracle against every serial handling",
-         "After a default-schedule setup the I/O thread is held at its gate while every ordered subset (up to 4, thorough 5 events) of {server Connection.Close, server Channel.Close, one channel-0 request (open_channel / listen_for_connection_blocked / Connection::close), publish and/or call on the closed channel, call on another channel} is made pending in that order (readiness order = batch order), then one poll handles them together; also with the transport stalled so the closing state spans batches. 1410 (thorough more) batches. Oracle: no panic, every request returns, Connection::close reports the server's close, and the results equal those of some serial (one event per batch) handling of the same events.",
+         "After a default-schedule setup the I/O thread is held at its gate while every ordered subset (up to 4, thorough 5 events) of {server Connection.Close, server Channel.Close, one channel-0 request (open_channel / listen_for_connection_blocked / Connection::close), publish and/or call on the closed channel, call on another channel} is made pending in that order (readiness order = batch order), then one poll handles them together; also with the transport stalled so the closing state spans batches, with the client's own Channel::close among the events, and with [reply to a call in flight, server close] arriving in one read at mem_channel_bound 1 and 16. 1916 (thorough more) batches. Oracle: no panic, every request returns, Connection::close reports the server's close, and the results equal those of some serial (one event per batch) handling of the same events.",
          "Event alphabet and sizes as listed; server frames share the byte stream so only stream-consistent orders are generated.",
          "DESIGN.md §6 C20", "simx"),
 }
